@@ -25,6 +25,8 @@ def _violations(prop, overlay):
     for o in ctx.obligations:
         if o.status in (VIOLATED, UNDECIDED):
             v.setdefault(o.rule, set()).add(o.construct)
+    if ctx.rule_errors and not any(o.status == VIOLATED for o in ctx.obligations):
+        return None, ctx.rule_errors[0][1]
     return v, None
 
 
